@@ -641,3 +641,118 @@ func ExecRT(f []string) (answer string, written []byte, want []string, got []str
 
 	return fmt.Sprintf("ok %s %d %s", hx.Hex(written), rd.Pos, ShowVals(tr.Vals)), written, want, tr.Vals, rd.Pos
 }
+
+// RWInfo is what an in-place write/read-back observed (for the oracles of harness/c01c).
+type RWInfo struct {
+	Storage  []byte   // the whole buffer after phase 2
+	Pos      int      // the write position after phase 2
+	Off      int      // where phase 2 started
+	Want     []string // the values phase 2 wrote
+	Got      []string // the values read back
+	Consumed int
+	Enc1     []byte // what phase 1 / phase 2 write into a fresh append-only buffer
+	Enc2     []byte
+	Init     int
+	Ops2     int
+}
+
+func splitBar(f []string) ([]string, []string) {
+	for i, t := range f {
+		if t == "|" {
+			return f[:i], f[i+1:]
+		}
+	}
+
+	return f, nil
+}
+
+func freshEnc(p []WOp) []byte {
+	b := stream.NewByteBuffer()
+	if err := RunW(p, b); err != nil {
+		return nil
+	}
+	out, _ := b.Bytes()
+
+	return append([]byte(nil), out...)
+}
+
+// ExecRW executes "rw INIT CHUNKS phase1... | OFF | phase2...": a ByteBuffer created with INIT bytes of
+// storage, phase 1 written from offset 0, Seek to OFF, phase 2 written in place (in front of / over
+// whatever is there), then phase 2 is read back from OFF of the final storage through a chunking reader.
+// Answer: "ok STORAGEHEX POS CONSUMED VALS" | "werr" | "rerr STORAGEHEX POS CONSUMED" | "panic".
+func ExecRW(f []string) (string, *RWInfo) {
+	init, err := strconv.Atoi(f[1])
+	if err != nil {
+		panic("bad initial length")
+	}
+	chunks := ParseChunks(f[2])
+	t1, rest := splitBar(f[3:])
+	if len(rest) < 2 || rest[1] != "|" {
+		panic("rw needs phase1 | OFF | phase2")
+	}
+	off, err := strconv.Atoi(rest[0])
+	if err != nil {
+		panic("bad offset")
+	}
+	p1, p2 := ParseW(t1), ParseW(rest[2:])
+	info := &RWInfo{Off: off, Init: init, Ops2: len(p2), Enc1: freshEnc(p1), Enc2: freshEnc(p2)}
+	buf := stream.NewByteBuffer(init)
+	var werr error
+	if p := hx.Safely(func() {
+		if werr = RunW(p1, buf); werr != nil {
+			return
+		}
+		if _, werr = stream.GoTo(buf, int64(off)); werr != nil {
+			return
+		}
+		werr = RunW(p2, buf)
+	}); p != "" {
+		return "panic", info
+	}
+	if werr != nil {
+		return "werr", info
+	}
+	pos, _ := stream.Offset(buf)
+	b, _ := buf.Bytes()
+	info.Storage = append([]byte(nil), b...)
+	info.Pos = int(pos)
+	rp, want := ReadOf(p2)
+	info.Want = want
+	var from []byte
+	if off <= len(info.Storage) {
+		from = info.Storage[off:]
+	}
+	rd := &ChunkReader{Data: append([]byte(nil), from...), Chunks: chunks}
+	tr := &RTrace{}
+	var rerr error
+	if p := hx.Safely(func() { rerr = RunR(rp, rd, tr) }); p != "" {
+		return "panic", info
+	}
+	info.Got, info.Consumed = tr.Vals, rd.Pos
+	if rerr != nil {
+		return fmt.Sprintf("rerr %s %d %d", hx.Hex(info.Storage), info.Pos, rd.Pos), info
+	}
+
+	return fmt.Sprintf("ok %s %d %d %s", hx.Hex(info.Storage), info.Pos, rd.Pos, ShowVals(tr.Vals)), info
+}
+
+// Overlay is what in-place writing must amount to: the bytes e written over the storage at offset off
+// (zero padding if off lies beyond the storage), everything else kept.
+func Overlay(storage []byte, off int, e []byte, pad bool) []byte {
+	out := append([]byte(nil), storage...)
+	if !pad {
+		return out
+	}
+	for len(out) < off {
+		out = append(out, 0)
+	}
+	for i, x := range e {
+		if off+i < len(out) {
+			out[off+i] = x
+		} else {
+			out = append(out, x)
+		}
+	}
+
+	return out
+}
